@@ -44,6 +44,12 @@ theorem C19_host (r : Req) :
     newExtractor "request.host".toList = .ok .host ∧ extract .host r = .ok (r.host, 1) :=
   ⟨(newExtractor_ok_iff _ _).2 (Or.inr (Or.inl ⟨rfl, rfl⟩)), rfl⟩
 
+/-- **C19 (request.host reads the Host only)**: whatever `req.URL.Host` is — the backend address a load
+    balancer in front has re-pointed the URL at, or the authority of an absolute-form request line —
+    the token is the request's Host. -/
+theorem C19_host_ignores_url (r : Req) (u : Str) :
+    extract .host { r with urlHost := u } = .ok (r.host, 1) := rfl
+
 /-- **C19 (request.header.X)**: for every non-empty header name, `NewExtractor("request.header."+name)`
     succeeds and the extractor yields `req.Header.Get(name)` — the first value stored under the
     canonical form of `name`, the empty string when there is none — amount 1, never an error. -/
@@ -55,14 +61,14 @@ theorem C19_header (name : Str) (hne : name ≠ []) (r : Req) :
 /-- what `Header.Get` is on the header lines: the value of the first line whose canonical name equals
     the canonical form of the configured name … -/
 theorem C19_header_value (pre post : List (Str × Str)) (n v name : Str)
-    (hn : canonKey n = canonKey name) (hpre : ∀ q ∈ pre, canonKey q.1 ≠ canonKey name) (ra host : Str) :
-    extract (.header name) ⟨ra, host, pre ++ (n, v) :: post⟩ = .ok (v, 1) := by
+    (hn : canonKey n = canonKey name) (hpre : ∀ q ∈ pre, canonKey q.1 ≠ canonKey name) (ra host uh : Str) :
+    extract (.header name) ⟨ra, host, pre ++ (n, v) :: post, uh⟩ = .ok (v, 1) := by
   simp [extract, headerGet_hit pre post n v name hn hpre]
 
 /-- … and the empty token when no line has that name -/
 theorem C19_header_absent (hs : List (Str × Str)) (name : Str)
-    (h : ∀ q ∈ hs, canonKey q.1 ≠ canonKey name) (ra host : Str) :
-    extract (.header name) ⟨ra, host, hs⟩ = .ok ([], 1) := by
+    (h : ∀ q ∈ hs, canonKey q.1 ≠ canonKey name) (ra host uh : Str) :
+    extract (.header name) ⟨ra, host, hs, uh⟩ = .ok ([], 1) := by
   simp [extract, headerGet_miss hs name h]
 
 /-- **C19 (one unit)**: every extractor counts a request as exactly one unit. -/
@@ -177,8 +183,9 @@ example : extractClientIP ":".toList = .error .noClientIP := by rfl
 example : extractClientIP "[]:80".toList = .error .noClientIP := by rfl
 example : newExtractor "request.header.".toList = .error .wrongHeader := by rfl
 example : newExtractor "client.IP".toList = .error .unsupported := by rfl
+example : extract .host ⟨"10.0.0.1:5".toList, "tenant-a.example".toList, [], "10.1.1.1:8080".toList⟩ = .ok ("tenant-a.example".toList, 1) := by rfl
 example : canonKey "x-fOO-bar".toList = "X-Foo-Bar".toList := by rfl
-example : extract (.header "x-foo".toList) ⟨[], [], [("X-Other".toList, "a".toList), ("X-FOO".toList, "b".toList), ("x-foo".toList, "c".toList)]⟩
+example : extract (.header "x-foo".toList) ⟨[], [], [("X-Other".toList, "a".toList), ("X-FOO".toList, "b".toList), ("x-foo".toList, "c".toList)], []⟩
     = .ok ("b".toList, 1) := by rfl
 
 end C19
